@@ -129,6 +129,87 @@ def tables():
     punct = [(t, k) for t, k in toks if not re.fullmatch(r"[A-Za-z]+", t)]
     out.append("(* the punctuation tokens *)\nDefinition gen_punct : list (string * tk) :=\n  [ " +
                "; ".join("(%s, T%s)" % (coq_string(t.replace("\\n", "\n")) if t != "\\n" else 'String (Ascii.ascii_of_nat 10) EmptyString', k) for t, k in punct) + " ]%string.\n")
+    # BinOp::eval / UnaryOp::eval arms (src/expr.rs): a tiny expression translator; anything it does not
+    # recognise is a translation failure
+    exprsrc = rd("src/expr.rs")
+    body = fn_body(exprsrc, r"fn\s+eval\s*\(\s*&self\s*,\s*left:\s*i64\s*,\s*right:\s*i64\s*\)")
+    if body is None:
+        raise ValueError("BinOp::eval not found")
+    g = re.search(r"if\s+right\s*==\s*0\s*&&\s*matches!\(\s*self\s*,([^)]*)\)\s*\{\s*return\s+Err\(ExprErrorKind::DivisionByZero", body)
+    if not g:
+        raise ValueError("BinOp::eval: division-by-zero guard not recognised")
+    guard = re.findall(r"Self::(\w+)", g.group(1))
+    m = re.search(r"Ok\(\s*match\s+self\s*\{(.*?)\}\s*\)", body, re.S)
+    if not m:
+        raise ValueError("BinOp::eval: match not recognised")
+    cmpops = {"==": "(l =? r)", "!=": "(negb (l =? r))", ">": "(l >? r)", "<": "(l <? r)", ">=": "(l >=? r)", "<=": "(l <=? r)"}
+    bitops = {"|": "Z.lor", "^": "Z.lxor", "&": "Z.land"}
+    wraps = {"wrapping_add": "wadd", "wrapping_sub": "wsub", "wrapping_mul": "wmul", "wrapping_div": "wdiv", "wrapping_rem": "wrem"}
+    arms = {}
+    for name, rhs in re.findall(r"Self::(\w+)\s*=>\s*([^,]+(?:\([^)]*\))?[^,]*),", m.group(1) + ","):
+        rhs = " ".join(rhs.split())
+        mm = re.fullmatch(r"\(left (==|!=|>=|<=|>|<) right\) as i64", rhs)
+        if mm:
+            arms[name] = "b2z %s" % cmpops[mm.group(1)]
+            continue
+        mm = re.fullmatch(r"left (\||\^|&) right", rhs)
+        if mm:
+            arms[name] = "%s l r" % bitops[mm.group(1)]
+            continue
+        mm = re.fullmatch(r"left\.(wrapping_\w+)\(right\)", rhs)
+        if mm and mm.group(1) in wraps:
+            arms[name] = "%s l r" % wraps[mm.group(1)]
+            continue
+        mm = re.fullmatch(r"left\.wrapping_(shl|shr)\(right as u32\)", rhs)
+        if mm:
+            arms[name] = "%s l r" % ("wshl" if mm.group(1) == "shl" else "wshr")
+            continue
+        raise ValueError("BinOp::eval: arm %s => %s not recognised" % (name, rhs))
+    if set(arms) != set(BINOPS):
+        raise ValueError("BinOp::eval: arms %s" % sorted(arms))
+    out.append("Local Open Scope Z_scope.\n")
+    out.append("Definition gen_div_guard : list binop := [ " + "; ".join(guard) + " ].\n")
+    out.append("Definition gen_binop_value (op : binop) (l r : Z) : Z :=\n  match op with\n" +
+               "".join("  | %s => %s\n" % (k, arms[k]) for k in BINOPS) + "  end.\n")
+    body = fn_body(exprsrc, r"fn\s+eval\s*\(\s*&self\s*,\s*val:\s*i64\s*\)")
+    if body is None:
+        raise ValueError("UnaryOp::eval not found")
+    uarms = {}
+    for name, rhs in re.findall(r"Self::(\w+)\s*=>\s*([^,]+),", body):
+        rhs = " ".join(rhs.split())
+        if rhs == "val.wrapping_neg()":
+            uarms[name] = "wneg v"
+        elif rhs == "(val == 0) as i64":
+            uarms[name] = "b2z (v =? 0)"
+        elif rhs == "!val":
+            uarms[name] = "Z.lnot v"
+        else:
+            raise ValueError("UnaryOp::eval: arm %s => %s not recognised" % (name, rhs))
+    if set(uarms) != set(UNOPS):
+        raise ValueError("UnaryOp::eval: arms %s" % sorted(uarms))
+    out.append("Definition gen_unop_value (op : unop) (v : Z) : Z :=\n  match op with\n" +
+               "".join("  | %s => %s\n" % (UNOPS[k], uarms[k]) for k in UNOPS) + "  end.\n")
+    # fn bit_mask (src/data_row_iterator.rs) and its two call sites
+    dri = rd("src/data_row_iterator.rs")
+    body = fn_body(dri, r"fn\s+bit_mask\s*\(\s*bits:\s*usize\s*\)\s*->\s*i64")
+    norm = " ".join((body or "").split())
+    mm = re.fullmatch(r"if bits < (\d+) \{ \(\(1u64 << bits\) - 1\) as i64 \} else \{ -1 \}", norm)
+    if not mm:
+        raise ValueError("bit_mask: body not recognised: %s" % norm)
+    sites = re.findall(r"(\w+)::Value\(n & bit_mask\(signal\.bits\)\)", dri)
+    if sorted(sites) != ["ExpectedValue", "InputValue"]:
+        raise ValueError("bit_mask call sites: %s" % sites)
+    out.append("Definition gen_bit_mask (bits : N) : Z := if (bits <? %s)%%N then 2 ^ Z.of_N bits - 1 else -1.\n" % mm.group(1))
+    # ExpectedValue::check (src/value.rs)
+    body = fn_body(rd("src/value.rs"), r"pub\s+fn\s+check\s*\(\s*&self\s*,\s*other:\s*impl\s+Into<OutputValue>\s*\)")
+    norm = " ".join((body or "").split())
+    want = ("let other = other.into(); match self { ExpectedValue::Value(n) => matches!(other, OutputValue::Value(m) if *n == m), "
+            "ExpectedValue::Z => matches!(other, OutputValue::Z), ExpectedValue::X => true, }")
+    if norm != want:
+        raise ValueError("ExpectedValue::check: body not recognised: %s" % norm)
+    out.append("Definition gen_expected_check (e : expval) (o : outval) : bool :=\n  match e with\n"
+               "  | XVal n => match o with OVal m => Z.eqb n m | _ => false end\n"
+               "  | XZ => match o with OZ => true | _ => false end\n  | XX => true\n  end.\n")
     return "\n".join(out)
 
 
@@ -148,7 +229,7 @@ def main():
     except Exception as e:   # a translation failure: the tie of the properties using these tables is broken
         print("gen_tables: TRANSLATION FAILURE: %s" % e, file=sys.stderr)
         return 3
-    write_if_changed(OUT2, "(* GENERATED by tools/gen_tables.py from /repo/src - do not edit. *)\nFrom DTR Require Import Prelude Ast.\n"
+    write_if_changed(OUT2, "(* GENERATED by tools/gen_tables.py from /repo/src - do not edit. *)\nFrom DTR Require Import Prelude I64 Ast.\n"
                            "From Coq Require Import String Ascii.\nOpen Scope N_scope.\n\n" + t)
     nd, where = nd_table()
     lines = ["(* GENERATED by tools/gen_tables.py from the sources - do not edit. *)",
